@@ -484,11 +484,7 @@ def generate(repo):
         for st in strip_doc(g.body):
             if isinstance(st, ast.Assign) and isinstance(st.value, ast.Constant):
                 consts[ast.unparse(st.targets[0])] = st.value.value
-        for frag in ['while True: breakcount = breakcount + 1 if breakcount == 20: if errorcount == 10: raise',
-                     'errorcount = errorcount + 1 breakcount = 0 if protein_charge > 0: max_pH = max_pH + 1 else: min_pH = min_pH - 1',
-                     'mid_pH = 0.5 * (max_pH + min_pH)', 'protein_charge = self.charge_at_pH(mid_pH, normalize=True)',
-                     'if protein_charge > threshold: min_pH = mid_pH elif protein_charge < -threshold: max_pH = mid_pH else: return mid_pH']:
-            need(' '.join(frag.split()) in gs, 'isoelectric_point: missing `%s`' % frag[:40])
+        # the loop itself is tied semantically (g_minipy -> Props/Tie/minipy_pi_tie.v), not by shape; the constants are kept
         need(set(consts) >= {'min_pH', 'max_pH', 'threshold', 'breakcount', 'errorcount'}, 'isoelectric_point constants')
         return ('Definition g_titr_positive : list aa := %s.\nDefinition g_titr_negative : list aa := %s.\n'
                 'Definition g_pi_constants : list (string * Q) := %s.' % (
